@@ -128,6 +128,7 @@ func ZZ_C08_canaryPaused() {
 		NodeByName: map[string]*NodeItem{}, PodByNodeName: map[*NodeItem]*corev1.Pod{},
 	}
 	withPod := nondet.Bool("hasCanaryPod")
+	restarts := int32(0)
 	for i := 0; i < 2; i++ {
 		ni := NewNodeItem(&corev1.Node{ObjectMeta: metav1.ObjectMeta{Name: zzNodeName(i)}}, nil)
 		params.NodeByName[ni.Node.Name] = ni
@@ -137,7 +138,14 @@ func ZZ_C08_canaryPaused() {
 			p := zzPod(i, zzHashNew, 2, true, nondet.Base().Add(-time.Hour))
 			st := metav1.NewTime(nondet.Base().Add(-time.Hour))
 			p.Status.StartTime = &st
-			p.Status.ContainerStatuses = []corev1.ContainerStatus{{Name: "c"}}
+			// the pod may have restarted, up to autoFail.maxRestarts (default 5; autoPause.maxRestarts
+			// defaults to 2): the usual reason why a canary is paused, and still true when the user unpauses
+			restarts = nondet.Int32("canaryPod.restarts", 0, 5)
+			cs := corev1.ContainerStatus{Name: "c", RestartCount: restarts}
+			if restarts > 0 {
+				cs.LastTerminationState.Terminated = &corev1.ContainerStateTerminated{Reason: "Error", ExitCode: 1, FinishedAt: metav1.NewTime(nondet.Base().Add(-30 * time.Minute))}
+			}
+			p.Status.ContainerStatuses = []corev1.ContainerStatus{cs}
 			params.PodByNodeName[ni] = p
 		}
 	}
@@ -149,8 +157,9 @@ func ZZ_C08_canaryPaused() {
 		nondet.Assert("C08.canary.paused-stays", res.IsPaused)
 		nondet.Assert("C08.canary.no-create", len(res.PodsToCreate) == 0)
 	}
-	if !paused || annUnpaused {
-		// "a canary resumes on unpause": a healthy canary keeps filling its nodes
+	if annUnpaused || (!paused && restarts <= 2) {
+		// "a canary resumes on unpause" (whatever made it pause is overridden by the user); a healthy
+		// canary that nobody paused keeps filling its nodes
 		nondet.Assert("C08.canary.resumes", !res.IsPaused && len(res.PodsToCreate) >= 1)
 	}
 	nondet.Assert("C08.canary.no-delete", len(res.PodsToDelete) == 0)
@@ -158,6 +167,7 @@ func ZZ_C08_canaryPaused() {
 	nondet.Observe("nCreate", len(res.PodsToCreate))
 	nondet.Reach("C08.canary.cond-paused-ann-false", condPaused && !annPaused && len(ann) > 0 && !annUnpaused)
 	nondet.Reach("C08.canary.unpaused", paused && annUnpaused)
+	nondet.Reach("C08.canary.unpaused-while-still-restarting", annUnpaused && restarts > 2 && !res.IsPaused)
 }
 
 // ZZ_C08_resumeIgnoresReplicaSetCopies: "a rolling update resumes once its annotation is removed
